@@ -22,6 +22,13 @@ def templates(tier, seed):
                     if tier == "quick" and (N == 3 and (len(which) != 2 or shape == "frame_wide")):
                         continue
                     ts.append(Template(f"{shape}/{'+'.join(which) or 'none'}/N={N}", t_sub, (shape, N, list(which))))
+    t_idx = tmpl.pick(tmpl.subsample_index_case, LABELS)
+    for N in ((2, 3) if tier == "quick" else (1, 2, 3, 4)):
+        for shape in ("series_index", "index_alone"):
+            for which in (["head"], ["tail"], ["head", "tail"], []):
+                if tier == "quick" and N == 3 and which != ["head", "tail"]:
+                    continue
+                ts.append(Template(f"IDX/{shape}/{'+'.join(which) or 'none'}/N={N}", t_idx, (shape, N, which)))
     import tmpl_pl
 
     ts += [Template(tid, tmpl.pick(fn, LABELS), args) for tid, fn, args in tmpl_pl.subsample_cases(tier)]
